@@ -6,7 +6,8 @@ import json, os, shutil, subprocess, sys
 pid, name = sys.argv[1], sys.argv[2]
 checks = sys.argv[3:] or [pid]
 root = os.environ.get("SEED_ROOT", "/tmp/seed")
-src = "%s/%s/%s" % (root, pid, name)
+tag = os.environ.get("SEED_TAG", pid)      # directory name of the seeding round, if it differs from the property id
+src = "%s/%s/%s" % (root, tag, name)
 # SEED_WT: scratch worktree (default /work/mut); SEED_PRIVATE=1: private copy of the lake project and of the
 # trial evidence directory next to the worktree, so that several seeds can be confirmed in parallel
 wt = os.environ.get("SEED_WT", "/work/mut")
@@ -26,7 +27,7 @@ sh("git -C %s reset -q --hard %s && git -C %s clean -fdq" % (wt, head, wt))
 meta = json.load(open(src + "/meta.json"))
 demo = meta.get("demo_cmd", "").split("   (")[0].split("  (")[0].split("  #")[0].strip()
 # normalise the demo command to run against the scratch worktree
-cmd = demo.replace("%s/%s-wt" % (root, pid), wt).replace("<repo>", wt)
+cmd = demo.replace("%s/%s-wt" % (root, tag), wt).replace("<repo>", wt)
 if wt not in cmd:
     cmd = cmd + " " + wt
 rc0, o0 = sh(cmd, timeout=900)
@@ -57,6 +58,12 @@ meta["detected_by"] = [c for c, v in results.items() if any("VIOLATION" in x for
 print(json.dumps({"ok": ok, "detected_by": meta["detected_by"], "confirmed": {k: meta["confirmed"][k] for k in ("demo_rc_unpatched", "demo_rc_patched", "demo_rc_reverted", "tests_ok")}}))
 if ok:
     dst = "/verif/seeded/%s/%s" % (pid, name)
+    try:
+        old_note = json.load(open(dst + "/meta.json")).get("note")
+        if old_note and not meta.get("note"):
+            meta["note"] = old_note
+    except (OSError, ValueError):
+        pass
     shutil.rmtree(dst, ignore_errors=True)
     shutil.copytree(src, dst)
     json.dump(meta, open(dst + "/meta.json", "w"), indent=1)
